@@ -62,6 +62,16 @@ PROPS = {
         ],
         "assumptions": ["payload contents are a function of (stream, index), so item sizes and first index determine the future behaviour of a state"],
     },
+    "C06": {
+        "level": "model_checking",
+        "technique": "explicit-state search over raw wire message histories against a real ServerSession, with a reference lifecycle-gate model checked after every message",
+        "claim": "all sequences (exhaustive up to the shallow depth, state-deduplicated beyond) over a 19-message alphabet (initialize variants, initialized, ping, cancelled, legacy and 2026-07-28 list/call with complete/incomplete/unsupported/invalid metadata, discover, setLevel, subscribe, roots-changed, removed methods) are sent over the in-memory pipe; per message the response class/code, the methods reaching the handler layer (receiving middleware), user-handler invocation counts and session state are compared with the reference gate",
+        "note": "message alphabet fixed (one representative per class); histories beyond the stated depth are outside the bound; deduplication key = (InitializeParams version, InitializedParams present, log level)",
+        "parts": [
+            {"pkg": "mcp", "mode": "plain", "test": "TestVerifC06", "shards": 1, "gomaxprocs": 16, "time_s": {"quick": 150, "thorough": 1500}},
+        ],
+        "assumptions": ["synctest.Wait() quiescence = the server has finished processing the message"],
+    },
     "C14": {
         "level": "model_checking",
         "engine": "explore (bounded-exhaustive product)",
